@@ -238,6 +238,70 @@ def obs_dict(members, d):
     return out
 
 
+def struct_snapshot(mod, conn, case, ok, exc=None):
+    members, prefix = case['members'], case['prefix']
+    evs = []
+    for par, val in updates(conn, 'm'):
+        if par == '_ctrl':
+            evs.append(['struct', obs_dict(members, val)])
+        elif par.startswith('_' + prefix) and par[1 + len(prefix):] in members:
+            evs.append(['mem', par[1 + len(prefix):], num(val)])
+    return {'struct': obs_dict(members, mod.parameters['ctrl'].value),
+            'mem': [[m, num(mod.parameters[prefix + m].value)] for m in members],
+            'sP': pending(mod.parameters['ctrl']), 'mP': [pending(mod.parameters[prefix + m]) for m in members],
+            'evs': evs, 'ok': ok, 'exc': exc}
+
+
+def struct_op(node, conn, mod, case, cur, op):
+    """issue one operation of a struct history on the real code -> (accepted, kind of the driver exception that escaped)"""
+    members, prefix = case['members'], case['prefix']
+    kind, via = op[0], op[-1]
+    cur.clear()
+    ok, exc = True, None
+    try:
+        if kind == 'readStruct':
+            cur['rA'] = [op[1] if is_fail(op[1]) else dict_in(op[1])]
+            cur['rB'] = dict(zip(members, op[2]))
+            if via == 'req':
+                ok, exc = reply_outcome(node.request(conn, 'read', 'm:_ctrl'))
+            else:
+                mod.read_ctrl()
+        elif kind == 'writeStruct':
+            cur['wA'] = [op[2] if isinstance(op[2], str) else dict_in(op[2])]
+            cur['wB'] = dict(zip(members, op[3]))
+            if via == 'req':
+                ok, exc = reply_outcome(node.request(conn, 'change', 'm:_ctrl', dict_in(op[1])))
+            else:
+                mod.write_ctrl(dict_in(op[1]))
+        elif kind == 'readMember':
+            cur['rA'] = [op[2] if is_fail(op[2]) else dict_in(op[2])]
+            cur['rB'] = {op[1]: op[3]}
+            if via == 'req':
+                ok, exc = reply_outcome(node.request(conn, 'read', 'm:_' + prefix + op[1]))
+            else:
+                getattr(mod, 'read_' + prefix + op[1])()
+        elif kind == 'writeMember':
+            cur['wA'] = [op[3] if isinstance(op[3], str) else dict_in(op[3])]
+            cur['rA'] = [op[4] if is_fail(op[4]) else dict_in(op[4])]
+            cur['wB'] = {op[1]: op[5]}
+            cur['rB'] = {op[1]: op[6]}
+            if via == 'req':
+                ok, exc = reply_outcome(node.request(conn, 'change', 'm:_' + prefix + op[1], op[2]))
+            else:
+                getattr(mod, 'write_' + prefix + op[1])(op[2])
+        elif kind == 'assignStruct':
+            mod.ctrl = dict_in(op[1])
+            ok = mod.parameters['ctrl'].readerror is None
+        elif kind == 'assignMember':
+            setattr(mod, prefix + op[1], op[2])
+            ok = mod.parameters[prefix + op[1]].readerror is None
+        else:
+            raise ValueError(kind)
+    except Exception as e:
+        ok, exc = False, EXC_NAMES.get(type(e).__name__)
+    return ok, exc
+
+
 def impl_struct(case):
     """run the history on the real code -> [obs after init, obs after op 1, ...]"""
     cur = {}
@@ -245,68 +309,209 @@ def impl_struct(case):
     cls = build_struct_class(case, cur)
     node, conn = new_node({'m': {'cls': cls, 'description': 'x'}}, case.get('omit', False))
     mod = node.modules['m']
-    members, prefix = case['members'], case['prefix']
-
-    def snapshot(ok, exc=None):
-        evs = []
-        for par, val in updates(conn, 'm'):
-            if par == '_ctrl':
-                evs.append(['struct', obs_dict(members, val)])
-            elif par.startswith('_' + prefix) and par[1 + len(prefix):] in members:
-                evs.append(['mem', par[1 + len(prefix):], num(val)])
-        return {'struct': obs_dict(members, mod.parameters['ctrl'].value),
-                'mem': [[m, num(mod.parameters[prefix + m].value)] for m in members],
-                'sP': pending(mod.parameters['ctrl']), 'mP': [pending(mod.parameters[prefix + m]) for m in members],
-                'evs': evs, 'ok': ok, 'exc': exc}
-
-    trace = [snapshot(True)]
+    trace = [struct_snapshot(mod, conn, case, True)]
     for op in case['ops']:
-        kind, via = op[0], op[-1]
-        cur.clear()
-        ok, exc = True, None
-        try:
-            if kind == 'readStruct':
-                cur['rA'] = [op[1] if is_fail(op[1]) else dict_in(op[1])]
-                cur['rB'] = dict(zip(members, op[2]))
-                if via == 'req':
-                    ok, exc = reply_outcome(node.request(conn, 'read', 'm:_ctrl'))
-                else:
-                    mod.read_ctrl()
-            elif kind == 'writeStruct':
-                cur['wA'] = [op[2] if isinstance(op[2], str) else dict_in(op[2])]
-                cur['wB'] = dict(zip(members, op[3]))
-                if via == 'req':
-                    ok, exc = reply_outcome(node.request(conn, 'change', 'm:_ctrl', dict_in(op[1])))
-                else:
-                    mod.write_ctrl(dict_in(op[1]))
-            elif kind == 'readMember':
-                cur['rA'] = [op[2] if is_fail(op[2]) else dict_in(op[2])]
-                cur['rB'] = {op[1]: op[3]}
-                if via == 'req':
-                    ok, exc = reply_outcome(node.request(conn, 'read', 'm:_' + prefix + op[1]))
-                else:
-                    getattr(mod, 'read_' + prefix + op[1])()
-            elif kind == 'writeMember':
-                cur['wA'] = [op[3] if isinstance(op[3], str) else dict_in(op[3])]
-                cur['rA'] = [op[4] if is_fail(op[4]) else dict_in(op[4])]
-                cur['wB'] = {op[1]: op[5]}
-                cur['rB'] = {op[1]: op[6]}
-                if via == 'req':
-                    ok, exc = reply_outcome(node.request(conn, 'change', 'm:_' + prefix + op[1], op[2]))
-                else:
-                    getattr(mod, 'write_' + prefix + op[1])(op[2])
-            elif kind == 'assignStruct':
-                mod.ctrl = dict_in(op[1])
-                ok = mod.parameters['ctrl'].readerror is None
-            elif kind == 'assignMember':
-                setattr(mod, prefix + op[1], op[2])
-                ok = mod.parameters[prefix + op[1]].readerror is None
-            else:
-                raise ValueError(kind)
-        except Exception as e:
-            ok, exc = False, EXC_NAMES.get(type(e).__name__)
-        trace.append(snapshot(ok, exc))
+        ok, exc = struct_op(node, conn, mod, case, cur, op)
+        trace.append(struct_snapshot(mod, conn, case, ok, exc))
     return trace
+
+
+# ---- overlapping operations: several threads on one module, under the deterministic scheduler
+class PerThread:
+    """the script of the driver bodies, one per thread (a body runs in the thread that issued the operation)"""
+
+    def __init__(self):
+        self.scripts = {}
+
+    def _cur(self):
+        import threading
+        return self.scripts.setdefault(threading.get_ident(), {})
+
+    def get(self, key, default=None):
+        return self._cur().get(key, default)
+
+    def setdefault(self, key, value):
+        return self._cur().setdefault(key, value)
+
+    def __getitem__(self, key):
+        return self._cur()[key]
+
+    def __setitem__(self, key, value):
+        self._cur()[key] = value
+
+    def clear(self):
+        self._cur().clear()
+
+
+def impl_struct_conc(case, policy=None):
+    """case['pre'] sequentially, then the threads case['progs'] under the scheduler (schedule: `policy`, default: replay of
+    case['choices']), then case['ops'] sequentially.  -> (scheduler, trace, info); trace = the linked values at every
+    QUIESCENT point: start, after each operation of `pre`, after all threads have finished, after each operation of `ops`.
+    case['fine']: loads and stores of the guard counter of the struct parameter are yield points of their own."""
+    import frappy.modulebase as mb
+    import frappy.protocol.dispatcher as disp
+    from frappy.extparams import StructParam
+    from vlib.sched import Scheduler, ReplayThenDefault, YieldAttr, SchedAbort
+    import contextlib
+    s = Scheduler(policy=policy or ReplayThenDefault(case.get('choices') or []), max_steps=20000)
+    cur = PerThread()
+    with contextlib.ExitStack() as stack:
+        stack.enter_context(s.patched(mb, threading=s.threading, mkthread=s.mkthread))
+        stack.enter_context(s.patched(disp, threading=s.threading))
+        guard = StructParam.__dict__.get('insideRW')
+        if case.get('fine') and isinstance(guard, int):
+            stack.enter_context(s.patched(StructParam, insideRW=YieldAttr(s, 'insideRW', guard)))
+        cls = build_struct_class(case, cur)
+        if len(_nodes) >= 50:
+            cleanup_nodes()
+        node = Node({'m': {'cls': cls, 'description': 'x'}}, omit_unchanged_within=OMIT_WINDOW if case.get('omit') else 0)
+        _nodes.append(node)
+        if node.errors:
+            raise RuntimeError(f'node errors: {node.errors}')
+        conn = node.connect(sched=s)
+        node.request(conn, 'activate', None, None)
+        conn.msgs.clear()
+        mod = node.modules['m']
+        trace = [struct_snapshot(mod, conn, case, True)]
+        for op in case['pre']:
+            ok, exc = struct_op(node, conn, mod, case, cur, op)
+            trace.append(struct_snapshot(mod, conn, case, ok, exc))
+        outcomes = [[] for _ in case['progs']]
+
+        def body(k):
+            for op in case['progs'][k]:
+                outcomes[k].append(list(struct_op(node, conn, mod, case, cur, op)))
+
+        for k in range(len(case['progs'])):
+            s.spawn(f't{k}', body, (k,))
+        out = s.run(wall_timeout=20.0)
+        s.current = None          # the rest runs in the harness thread again
+        trace.append(struct_snapshot(mod, conn, case, all(o[0] for th in outcomes for o in th)))
+        for op in case['ops']:
+            ok, exc = struct_op(node, conn, mod, case, cur, op)
+            trace.append(struct_snapshot(mod, conn, case, ok, exc))
+    info = {'sched': {k: out[k] for k in ('deadlock', 'aborted', 'errors', 'alive')}, 'outcomes': outcomes,
+            'choices': [c[1] for c in s.choices],
+            'complete': all(len(o) == len(p) for o, p in zip(outcomes, case['progs']))}
+    return s, trace, info
+
+
+ROLES = {'poller': ('readStruct', 'readMember'), 'client': ('writeStruct', 'writeMember', 'readStruct', 'readMember'),
+         'driver': ('assignStruct', 'assignMember'), 'structaccess': ('readStruct', 'writeStruct'), 'any': None}
+
+
+def gen_struct_conc(rng, big):
+    """a struct layout, a short sequential prefix, 2..3 threads with 1..2 operations each, a sequential tail.  The threads
+    have the roles threads have in a running node: the poller (reads), a client connection (requests), the driver (updates
+    arriving from the hardware or another module: driver-side assignments), or any mix"""
+    base = gen_struct(rng, True, n=1)
+    if base['combined'] and rng.random() < 0.5:      # the guard counter matters in the per-member layout: seven of ten programs
+        base = dict(base, combined=False, hasRS=False, hasWS=False)
+        base['hasR'] = [m for m in base['members'] if rng.random() < 0.7]
+        base['hasW'] = [m for m in base['members'] if rng.random() < 0.7]
+    pool = gen_struct(rng, True, layout=base, n=120)['ops']
+
+    def draw(role):
+        kinds = ROLES[role]
+        for i, op in enumerate(pool):
+            if kinds is None or op[0] in kinds:
+                return pool.pop(i)
+        return pool.pop()
+    pre = [draw('any') for _ in range(rng.choice([0, 1, 1, 2]))]
+    roles = rng.choice([['poller', 'driver'], ['client', 'driver'], ['client', 'driver'], ['poller', 'client', 'driver'],
+                        ['driver', 'driver'], ['any', 'any'], ['any', 'any', 'any']])
+    rng.shuffle(roles)
+    progs = [[draw(role) for _ in range(rng.choice([1, 1, 2]))] for role in roles]
+    if rng.random() < 0.4:
+        # the basic overlap: one access to the whole struct while the driver updates it
+        progs = [[draw('structaccess')], [draw('driver') for _ in range(rng.choice([1, 1, 2]))]]
+        rng.shuffle(progs)
+    tail = [draw('any') for _ in range(rng.randint(1, 4))]
+    members = base['members']
+    if rng.random() < 0.5:
+        # a steady device: what the driver bodies return is mostly what the module holds already (a poll that finds nothing
+        # new, a write that is echoed) - with omission of unchanged updates such accesses announce nothing
+        v0 = {m: rng.choice([1, 2, 3, 5, 7]) for m in members}
+        pre.append(['assignStruct', [[m, v0[m]] for m in members], 'drv'])
+
+        def steady(op):
+            if rng.random() < 0.25:
+                return op
+            op = list(op)
+            if op[0] == 'readStruct':
+                op[1], op[2] = [[m, v0[m]] for m in members], [v0[m] for m in members]
+            elif op[0] == 'writeStruct':
+                op[1], op[2], op[3] = [[m, v0[m]] for m in members], 'none', ['none' for m in members]
+            elif op[0] == 'readMember':
+                op[2], op[3] = [[m, v0[m]] for m in members], v0[op[1]]
+            elif op[0] == 'writeMember':
+                op[2], op[3], op[4], op[5], op[6] = v0[op[1]], 'none', [[m, v0[m]] for m in members], 'none', v0[op[1]]
+            return op
+        progs = [[steady(op) for op in prog] for prog in progs]
+        tail = [steady(op) for op in tail]
+    return dict(base, kind='structconc', pre=pre, progs=progs, ops=tail, omit=rng.random() < 0.5, fine=rng.random() < 0.5)
+
+
+def gen_basic_overlap(rng):
+    """one scenario of the catalogue of basic overlaps: ONE access (of the poller or a client) to the struct or to a member, on a
+    device that is steady / has changed / fails at some member, while the driver assigns a member or the whole struct (the same
+    value again or a new one); then every member is updated once more by the driver (a link that got lost shows there).
+    Either may be thread 0, all single preemptions of which are explored (one operation inside the other)."""
+    members = rng.choice([['p'], ['p', 'i'], ['p', 'i'], ['p', 'i', 'd']])
+    combined = rng.random() < 0.3
+    hasRS = hasWS = combined
+    if combined and rng.random() < 0.3:
+        hasRS, hasWS = rng.choice([(True, False), (False, True)])
+    own = members if not combined else []
+    if not combined and rng.random() < 0.3:
+        own = [m for m in members if rng.random() < 0.6]
+    v0 = {m: v for m, v in zip(members, rng.sample([1, 2, 3, 5, 7], len(members)))}
+    new = {m: v for m, v in zip(members, rng.sample([10, 20, 30, 50, 70], len(members)))}
+
+    def full(d):
+        return [[m, d[m]] for m in members]
+    device = rng.choice(['steady', 'steady', 'changed', 'fails'])
+    seen = v0 if device == 'steady' else new
+    k = rng.randrange(len(members))
+    m = rng.choice(members)
+    via = rng.choice(['req', 'call'])
+    what = rng.choice(['readStruct', 'readStruct', 'writeStruct', 'writeStruct', 'readMember', 'writeMember'])
+    if what == 'readStruct':
+        rB = [seen[x] for x in members]
+        if device == 'fails':
+            rB[k] = fail_tag(rng)
+        access = ['readStruct', fail_tag(rng) if device == 'fails' else full(seen), rB, via]
+    elif what == 'writeStruct':
+        wB = ['none' for _ in members]
+        if device == 'fails':
+            wB[k] = fail_tag(rng)
+        access = ['writeStruct', full(seen), fail_tag(rng) if device == 'fails' else 'none', wB, via]
+    elif what == 'readMember':
+        access = ['readMember', m, fail_tag(rng) if device == 'fails' else full(seen), fail_tag(rng) if device == 'fails' else seen[m], via]
+    else:
+        access = ['writeMember', m, seen[m], fail_tag(rng) if device == 'fails' else 'none', full(seen), 'none', seen[m], via]
+    m2 = rng.choice(members)
+    other = {x: v + 100 for x, v in new.items()}
+    driver = rng.choice([['assignMember', m2, other[m2], 'drv'], ['assignMember', m2, other[m2], 'drv'], ['assignMember', m2, v0[m2], 'drv'],
+                         ['assignStruct', full(other), 'drv'], ['assignStruct', full(v0), 'drv']])
+    tail = [['assignMember', x, 1000 + i, 'drv'] for i, x in enumerate(members)]
+    return {'kind': 'structconc', 'members': members, 'prefix': rng.choice(['', 'pid_']), 'combined': combined, 'hasRS': hasRS,
+            'hasWS': hasWS, 'hasR': list(own), 'hasW': list(own), 'pre': [['assignStruct', full(v0), 'drv']],
+            'progs': rng.choice([[[access], [driver]], [[driver], [access]]]), 'ops': tail, 'omit': rng.random() < 0.5,
+            'fine': rng.random() < 0.4, 'basic': True}
+
+
+def sig_struct_conc(case, bad):
+    layout = 'combined' if case['combined'] else 'permember'
+    npre = len(case['pre'])
+    if bad <= npre:
+        return f'C18:struct:{layout}:' + (case['pre'][bad - 1][0] if bad else 'initial')
+    # the conditions of the run belong to what fails: preemption only at lock/send primitives or also between load and
+    # store of the guard counter; with or without omission of unchanged updates
+    cond = ('guard-load-store' if case.get('fine') else 'lock-level') + ('+omit-unchanged' if case.get('omit') else '')
+    if bad == npre + 1:
+        return f'C18:struct:{layout}:overlapping-operations:{cond}'
+    return f'C18:struct:{layout}:after-overlapping-operations:{cond}:' + case['ops'][bad - npre - 2][0]
 
 
 def wire_struct(case, trace):
@@ -321,7 +526,8 @@ def judge_struct_req(case, trace):
             'trace': [[t['struct'], t['mem']] for t in trace]}
 
 
-def gen_struct(rng, big):
+def gen_struct(rng, big, layout=None, n=None):
+    """layout: take the layout of this case instead of drawing one; n: number of operations"""
     members = rng.choice([['p'], ['p', 'i'], ['p', 'i', 'd'], ['a', 'b', 'c', 'dd']])
     # which of read_<struct> / write_<struct> the programmer wrote: both, one of them (the other is the plain wrapper), neither
     hasRS, hasWS = rng.choice([(True, True)] * 7 + [(True, False)] * 2 + [(False, True)] * 2 + [(False, False)] * 9)
@@ -331,6 +537,8 @@ def gen_struct(rng, big):
     pm = 0.7 if not combined else rng.choice([0, 0, 0.3])
     hasR = [m for m in members if rng.random() < pm]
     hasW = [m for m in members if rng.random() < pm]
+    if layout is not None:
+        members, prefix, combined, hasRS, hasWS, hasR, hasW = (layout[k] for k in ('members', 'prefix', 'combined', 'hasRS', 'hasWS', 'hasR', 'hasW'))
 
     def val():
         return rng.choice([0, 1, 2, 3, 5, 7, -1, -4, 9, 100])
@@ -371,7 +579,7 @@ def gen_struct(rng, big):
             return v
         return val()
 
-    n = rng.randint(1, 30 if big else 12)
+    n = n or rng.randint(1, 30 if big else 12)
     ops = []
     for _ in range(n):
         via = rng.choice(['req', 'call'])
@@ -1292,6 +1500,9 @@ def prepare(case):
     if kind == 'struct':
         trace = impl_struct(case)
         return trace, wire_struct(case, trace), judge_struct_req(case, trace), trace
+    if kind == 'structconc':
+        _, trace, info = impl_struct_conc(case)
+        return trace, conc_model_req(case, trace, info), judge_struct_req(case, trace), trace
     if kind == 'floatenum':
         vdict, lo, hi, trace = impl_floatenum(case)
         model, judge, canon = fe_requests(case, vdict, lo, hi, trace)
@@ -1341,10 +1552,17 @@ def first_diff(a, b):
     return None if len(a) == len(b) else min(len(a), len(b))
 
 
+def conc_model_req(case, trace, info):
+    """overlapping operations are judged; there is no model request yet (a no-op verb keeps the batch aligned)"""
+    return {'p': 'C18', 'k': 'judge_struct', 'members': [], 'trace': []}
+
+
 def signature(case, bad, trace):
     kind = case['kind']
     if kind == 'struct':
         return sig_struct(case, bad)
+    if kind == 'structconc':
+        return sig_struct_conc(case, bad)
     if kind == 'floatenum':
         return sig_floatenum(case, bad, trace)
     if kind == 'limits':
@@ -1357,7 +1575,7 @@ def signature(case, bad, trace):
 def linked_values(case, t):
     """the linked parameter values of one record (what the property is about)"""
     kind = case['kind']
-    if kind == 'struct':
+    if kind in ('struct', 'structconc'):
         return [t['struct'], t['mem']]
     if kind == 'floatenum':
         return [t['idx'], t['value']]
@@ -1440,7 +1658,8 @@ def run(ctx):
         for fn in sorted(os.listdir(cdir)):
             with open(os.path.join(cdir, fn)) as f:
                 cases.append(json.load(f)['case'])
-    cases = [constructible(c) for c in cases]
+    corpus_conc = [c for c in cases if c['kind'] == 'structconc']
+    cases = [constructible(c) for c in cases if c['kind'] != 'structconc']
     ncorpus = len(cases)
     per = ctx.budget(500, 6250)
     for kind in ('struct', 'floatenum', 'limits', 'control'):
@@ -1454,9 +1673,82 @@ def run(ctx):
 
     shrunk = {}
     chunk = 400
+    # first: the scheduled runs are three times slower at the end of a long run (thousands of module classes later)
+    _run_conc(ctx, res, corpus_conc, big)
     for start in range(0, len(cases), chunk):
         _run_chunk(ctx, res, cases[start:start + chunk], start, ncorpus, shrunk)
     return res
+
+
+def _run_conc(ctx, res, corpus, big):
+    """overlapping operations on a struct parameter: generated programs x schedules (no preemption, single preemptions,
+    then random), every run judged by the Lean monitor at its quiescent points"""
+    from vlib.sched import explore, RandomPolicy
+    rng = ctx.rng
+    nprog = ctx.budget(96, 900)
+    per_basic, per_random = (44, 12) if not big else (60, 24)
+    runs = []
+    for case in corpus:
+        _, trace, info = impl_struct_conc(case)
+        runs.append((case, trace, info))
+    for i in range(nprog):
+        # half of the programs from the catalogue of basic overlaps (all single preemptions of the access), the others random
+        basic = i % 2 == 0
+        prog = gen_basic_overlap(rng) if basic else gen_struct_conc(rng, big)
+        per_prog = per_basic if basic else per_random
+
+        def make_run(policy, prog=prog):
+            s, trace, info = impl_struct_conc(prog, policy)
+            return s, (dict(prog, choices=info['choices']), trace, info)
+        n = 0
+        # every single preemption first (as far as the budget goes, in random order), then random schedules
+        for _, _, ro in explore(make_run, max_preemptions=1, max_runs=(per_prog * 10) // 11 if basic else (per_prog * 3) // 4, rng=rng):
+            runs.append(ro)
+            n += 1
+        while n < per_prog:
+            runs.append(make_run(RandomPolicy(rng, rng.choice([0.2, 0.5, 0.8])))[1])
+            n += 1
+    answers = ctx.driver.batch([judge_struct_req(case, trace) for case, trace, _ in runs])
+    reported = {}
+    for (case, trace, info), judge in zip(runs, answers):
+        if 'driver_error' in judge:
+            raise RuntimeError(f'driver error: {judge["driver_error"]} case={json.dumps(case)[:500]}')
+        res.evaluations += 1
+        res.traces += 1
+        res.count('structconc.runs')
+        res.count('structconc.catalogue-of-basic-overlaps' if case.get('basic') else 'structconc.random-programs')
+        res.count(f'structconc.threads-{len(case["progs"])}')
+        res.count('structconc.layout-' + ('combined' if case['combined'] else 'permember'))
+        res.count('structconc.preemptions-%d' % min(3, sum(1 for c in info['choices'] if c)))
+        if case.get('fine'):
+            res.count('structconc.guard-load-store-yield-points')
+        if case.get('omit'):
+            res.count('structconc.omit-unchanged-updates')
+        sched = info['sched']
+        if sched['deadlock'] or sched['aborted'] or sched['errors'] or sched['alive'] or not info['complete']:
+            # the threads must finish: anything else is reported like a disagreement with the model (where they always do)
+            if len(res.disagreements) < 20:
+                res.disagreements.append({'case': case, 'model': 'all threads finish', 'impl': sched})
+            continue
+        kinds = {op[0] for prog in case['progs'] for op in prog}
+        if len(kinds) >= 2 and any(c for c in info['choices']) and len({json.dumps(t['struct']) for t in trace}) >= 2:
+            res.nontriv({k: v for k, v in case.items() if k != 'ops'})
+        for bad in new_bads(case, trace, judge['bads']):
+            sig = signature(case, bad, trace)
+            npre = len(case['pre'])
+            small = dict(case, ops=case['ops'][:max(0, bad - npre - 1)])
+            if reported.get(sig, 0) < 2:
+                reported[sig] = reported.get(sig, 0) + 1
+                what = (f'struct, overlapping operations ({"combined" if case["combined"] else "per-member"} layout, members '
+                        f'{case["members"]}, own read_ {case["hasR"]}, own write_ {case["hasW"]}, omit unchanged: {bool(case.get("omit"))}, preemption '
+                        f'{"also between load and store of the guard counter" if case.get("fine") else "at lock/send primitives"}): '
+                        f'after {json.dumps(case["pre"])}, then the threads {json.dumps(case["progs"])} under schedule '
+                        f'{info["choices"]}, then {json.dumps(small["ops"])} the recorded values are '
+                        f'{json.dumps({k: v for k, v in trace[bad].items() if k != "evs"})}')
+            else:
+                what = 'struct, overlapping operations: see first occurrence'
+            res.violations.append({'sig': sig, 'what': what, 'case': small, 'detail': {'first_bad_index': bad}})
+            break
 
 
 def prepare_limited(case):
@@ -1567,8 +1859,12 @@ def replay(ctx, rp):
     a = ctx.driver.batch([model, judge])
     mo, io = model_obs(case, a[0]) if 'init' in a[0] else a[0], impl_obs(case, canon)
     print('case  :', json.dumps({k: v for k, v in case.items() if k != 'ops'}))
+    labels = ['(initial state)'] + [json.dumps(op) for op in case['ops']]
+    if case['kind'] == 'structconc':
+        labels = ['(initial state)'] + [json.dumps(op) for op in case['pre']] + \
+                 [f'threads {json.dumps(case["progs"])} under schedule {case.get("choices")}'] + [json.dumps(op) for op in case['ops']]
     for i in range(len(io)):
-        print(f'  [{i}] op    :', json.dumps(case['ops'][i - 1]) if i else '(initial state)')
+        print(f'  [{i}] op    :', labels[i])
         print('       impl  :', json.dumps(io[i]))
         print('       model :', json.dumps(mo[i]) if isinstance(mo, list) and i < len(mo) else mo)
     print('judge :', a[1])
